@@ -15,19 +15,27 @@ VARIABLE c
 PriorsOf(kind) ==
     CASE kind = "scalar"  -> {0, 2}
       [] kind = "ptr"     -> {<<>>, <<2>>}
-      [] kind = "slice"   -> {<<>>, <<1, 2>>, <<1, 2, 1>>}
+      [] kind = "slice"   -> {<<>>, <<1>>, <<1, 2>>, <<1, 2, 1>>}
       [] kind = "array"   -> {<<0, 0>>, <<1, 2>>}
       [] kind = "map"     -> {[k \in {} |-> 0], [k \in {"a", "0"} |-> 1]}
       [] kind = "struct"  -> {[f \in StructFields |-> 0], [f \in StructFields |-> 2]}
       [] kind = "pstruct" -> {<<>>, <<[f \in StructFields |-> 2]>>}
+      [] kind = "pstructp" -> {<<>>, <<[f \in StructFields |-> IF f = "y" THEN <<2>> ELSE 2]>>}
 C11Pts == {Pt(k, v, t) : k \in C11Keys, v \in {0, 1}, t \in C11Tombs}
 C11Lists == UNION {[1..n -> C11Pts] : n \in 1..C11MaxLen}
+\* batches with several points for one index / field (repeated deletions, delete then set, both
+\* spellings of index 0) over a small alphabet, for the kinds where the order and multiplicity matter
+MultiPts == {Pt(k, 1, t) : k \in {"", "0", "1"}, t \in {0, 1, 3}}
+MultiLists == UNION {[1..n -> MultiPts] : n \in 2..3}
+MultiKinds == {"slice", "array", "map"}
 
 Init == \/ \E kind \in Kinds, rev \in BOOLEAN : \E v \in ValuesOf(kind) :
               c = [t |-> "rt", kind |-> kind, rev |-> rev, a |-> v]
         \/ DoPairs /\ \E kind \in Kinds, rev \in BOOLEAN : \E a \in ValuesOf(kind), b \in ValuesOf(kind) :
               c = [t |-> "dm", kind |-> kind, rev |-> rev, a |-> a, b |-> b]
         \/ \E kind \in Kinds : \E prior \in PriorsOf(kind), pts \in C11Lists :
+              c = [t |-> "dec", kind |-> kind, prior |-> prior, pts |-> pts]
+        \/ \E kind \in MultiKinds : \E prior \in PriorsOf(kind), pts \in MultiLists :
               c = [t |-> "dec", kind |-> kind, prior |-> prior, pts |-> pts]
 Next == UNCHANGED c
 Spec == Init /\ [][Next]_c
